@@ -20,7 +20,7 @@ import (
 // edit that no sampled input distinguishes breaks the proof; an edit outside
 // the translator's subset is reported as untranslatable. Either way: tie broken.
 
-var genNames = []string{"ParseGrpcTimeout", "DeadlineHeader", "ParseRawMethod", "ToMetadata"}
+var genNames = []string{"ParseGrpcTimeout", "DeadlineHeader", "ParseRawMethod", "ToMetadata", "ErrorIfDone"}
 
 func genIndex(name string) int {
 	for i, n := range genNames {
@@ -101,8 +101,11 @@ func runGenEquiv(t *testing.T, ctor string, names []string) {
 	}
 }
 
-func TestGenEquivC08(t *testing.T) { runGenEquiv(t, "CGen", []string{"ParseGrpcTimeout", "DeadlineHeader"}) }
+func TestGenEquivC08(t *testing.T) {
+	runGenEquiv(t, "CGen", []string{"ParseGrpcTimeout", "DeadlineHeader"})
+}
 func TestGenEquivC04(t *testing.T) { runGenEquiv(t, "CGen", []string{"ToMetadata"}) }
+func TestGenEquivC03(t *testing.T) { runGenEquiv(t, "CGen", []string{"ErrorIfDone"}) }
 
 // parseRawMethod is C12's (builder sv): the case type of C12 has the constructor C12Gen for it
 func TestGenEquivC12(t *testing.T) { runGenEquiv(t, "C12Gen", []string{"ParseRawMethod"}) }
